@@ -63,12 +63,18 @@ func NewJsonPlusReader(r io.Reader) io.Reader {
 // error when comment not match.
 var commentNotMatch = errors.New("comment not match")
 
+// the max size of a token, which is a comment, or a literal with the text before it.
+// The default of bufio.Scanner(64KB) fails a larger one with "token too long", so we
+// do not limit it, because the decoder holds the whole document in memory anyway.
+const maxTokenSize = int(^uint(0) >> 1)
+
 // the reader to ignore specified comments or tags.
 func NewCommentReader(r io.Reader, startMatches, endMatches [][]byte, isComments, requiredMatches []bool) io.Reader {
 	v := &commentReader{
 		s: bufio.NewScanner(r),
 		b: &bytes.Buffer{},
 	}
+	v.s.Buffer(nil, maxTokenSize)
 
 	v.s.Split(func(data []byte, atEOF bool) (advance int, token []byte, err error) {
 		if atEOF && len(data) == 0 {
